@@ -703,7 +703,9 @@ static void run_case(const vh::Case& c)
       Words w = vh::words(l);
       if (w.empty())
         continue;
-      if (!run_op(x, w))
+      bool cont = run_op(x, w);
+      line(";"); // end of the output of this operation
+      if (!cont)
         break;
     }
     // whatever is still alive is destroyed silently; a crash in there shows up after `end`
